@@ -103,7 +103,7 @@ pub enum SockEnv {
 }
 
 impl SockEnv {
-    fn token(&self) -> String {
+    pub fn token(&self) -> String {
         match self {
             Self::NotWritable => "n".into(),
             Self::WritableFails => "e".into(),
@@ -115,7 +115,7 @@ impl SockEnv {
             Self::TakeErrorFails => "x".into(),
         }
     }
-    fn apply(&self, id: usize) {
+    pub fn apply(&self, id: usize) {
         let (w, t) = match self {
             Self::NotWritable => (Poll::No, None),
             Self::WritableFails => (Poll::Fails, None),
@@ -127,7 +127,7 @@ impl SockEnv {
         };
         simsock::set_sock(id, w, t);
     }
-    fn writable(&self) -> bool {
+    pub fn writable(&self) -> bool {
         !matches!(self, Self::NotWritable | Self::WritableFails)
     }
 }
@@ -149,14 +149,14 @@ pub struct Live {
     pub start: u64,
 }
 
-fn show_live(l: &[Live]) -> String {
+pub fn show_live(l: &[Live]) -> String {
     if l.is_empty() {
         return "-".into();
     }
     l.iter().map(|x| format!("{}/{}/{}", x.sp, x.dp, x.start)).collect::<Vec<_>>().join(";")
 }
 
-fn show_ops(ops: &[String]) -> String {
+pub fn show_ops(ops: &[String]) -> String {
     let v: Vec<&String> = ops.iter().filter(|o| !o.starts_with("takeerr:")).collect();
     if v.is_empty() { "-".into() } else { v.iter().map(|s| s.as_str()).collect::<Vec<_>>().join(";") }
 }
@@ -440,7 +440,7 @@ impl Case {
     }
 }
 
-fn chan_err_kind(e: &Error) -> &'static str {
+pub fn chan_err_kind(e: &Error) -> &'static str {
     match e {
         Error::ProbeFailed(_) => "probe-failed",
         Error::AddressInUse(_) => "addr-in-use",
